@@ -85,7 +85,7 @@ def l1_proj(eps, input):
     input = input.ravel()
 
     if xp.linalg.norm(input, 1) < eps:
-        return input
+        return input.reshape(shape)
     else:
         size = len(input)
         s = xp.sort(xp.abs(input))[::-1]
